@@ -88,9 +88,13 @@ impl Report {
 // ------------------------------------------------------------------------------------------------ S: sequential
 /// One sequential case.  `script` = Some(lines) replays given op lines instead of generating.
 fn seq_case(rng: &mut Rng, out: &mut Out, rep: &mut Report, script: Option<&[String]>) {
-    let shards = *rng.pick(&[2usize, 4, 16]);
-    let ntasks = rng.range(1, 4) as usize;
+    let mut shards = *rng.pick(&[2usize, 4, 16]);
+    let mut ntasks = rng.range(1, 4) as usize;
     let nops = rng.range(20, 90);
+    let script = match script {
+        Some(l) if !l.is_empty() => { let w: Vec<&str> = l[0].split(' ').collect(); if w.len() == 4 { shards = w[2].parse().unwrap_or(shards); ntasks = w[3].parse().unwrap_or(ntasks); } Some(&l[1..]) }
+        x => x,
+    };
     let it = Interner::new(shards, HB::default());
     let mut held: Vec<Vec<Hd>> = vec![vec![]; ntasks];
     let mut ids: HashMap<(u8, u64), u64> = HashMap::new();
@@ -496,14 +500,25 @@ fn main() {
         let body = if let Some(i) = txt.find("\"case\": \"") { let rest = &txt[i + 9..]; rest[..rest.find("\",\n").or(rest.rfind('"')).unwrap_or(rest.len())].replace("\\n", "\n").replace("\\\"", "\"") } else { txt };
         let lines: Vec<String> = body.lines().map(|l| l.to_string()).collect();
         let mut rng = Rng::new(a.seed);
-        if lines.first().map(|l| l.starts_with("S ")).unwrap_or(false) { seq_case(&mut rng, &mut out, &mut rep, Some(&lines[1..])); }
+        if lines.first().map(|l| l.starts_with("S ")).unwrap_or(false) { seq_case(&mut rng, &mut out, &mut rep, Some(&lines[..])); }
         else if lines.first().map(|l| l.starts_with("T ")).unwrap_or(false) { for i in 0..200 { thread_case(&mut rng, &mut out, &mut rep, i, true); } }
         else { for _ in 0..200 { enc_case(&mut rng, &mut out, &mut rep); } }
     } else {
         let n = a.n.unwrap_or(if thorough { 160 } else { 40 });
         let mut rng = Rng::new(a.seed);
-        for i in 0..n { seq_case(&mut rng, &mut out, &mut rep, None); thread_case(&mut rng, &mut out, &mut rep, i, thorough); thread_case(&mut rng, &mut out, &mut rep, n + i, thorough);
-            enc_case(&mut rng, &mut out, &mut rep); if i % 4 == 0 { enc_dropped_case(&mut rng, &mut out, &mut rep); } }
+        // a panic that escapes a case (e.g. while the harness builds its inputs through the interner) is an
+        // oracle failure of that case, not a crash of the harness
+        macro_rules! guarded { ($name:expr, $e:expr) => {{
+            let r = catch_unwind(AssertUnwindSafe(|| $e));
+            if r.is_err() { rep.fail("case-panic", format!("the interner panicked inside a {} case", $name), format!("{} seed={} iteration", $name, a.seed)); }
+        }}; }
+        for i in 0..n {
+            guarded!("S", seq_case(&mut rng, &mut out, &mut rep, None));
+            guarded!("T", thread_case(&mut rng, &mut out, &mut rep, i, thorough));
+            guarded!("T", thread_case(&mut rng, &mut out, &mut rep, n + i, thorough));
+            guarded!("X", enc_case(&mut rng, &mut out, &mut rep));
+            if i % 4 == 0 { guarded!("X", enc_dropped_case(&mut rng, &mut out, &mut rep)); }
+        }
     }
     std::panic::set_hook(prev);
     let dist = rep.dist.iter().map(|(k, v)| format!("{}:{}", jstr(k), v)).collect::<Vec<_>>().join(",");
